@@ -5,6 +5,12 @@ import (
 	pAst "github.com/smarthome-go/homescript/v3/homescript/parser/ast"
 )
 
+// The printers add no parentheses of their own: an operand that is moved to another position (or
+// under a prefix operator) is wrapped so that the printed text parses back to the tree built here.
+func grouped(node ast.AnalyzedExpression) ast.AnalyzedExpression {
+	return ast.AnalyzedGroupedExpression{Inner: node, Range: node.Span()}
+}
+
 func (self *Transformer) infixExpr(node ast.AnalyzedInfixExpression, needsToBeStatic bool) []ast.AnalyzedExpression {
 	variants := make([]ast.AnalyzedExpression, 0)
 	variants = append(variants, node)
@@ -24,8 +30,8 @@ func (self *Transformer) infixExpr(node ast.AnalyzedInfixExpression, needsToBeSt
 			// If the operator is plus or mul / swap the operands
 			if node.Operator == pAst.PlusInfixOperator {
 				variants = append(variants, ast.AnalyzedInfixExpression{
-					Lhs:        node.Rhs,
-					Rhs:        node.Lhs,
+					Lhs:        grouped(node.Rhs),
+					Rhs:        grouped(node.Lhs),
 					Operator:   node.Operator,
 					ResultType: node.ResultType,
 					Range:      node.Range,
@@ -36,7 +42,7 @@ func (self *Transformer) infixExpr(node ast.AnalyzedInfixExpression, needsToBeSt
 				Lhs: node.Lhs,
 				Rhs: ast.AnalyzedPrefixExpression{
 					Operator:   ast.MinusPrefixOperator,
-					Base:       node.Rhs,
+					Base:       grouped(node.Rhs),
 					ResultType: ast.NewIntType(node.Range),
 					Range:      node.Range,
 				},
@@ -51,8 +57,8 @@ func (self *Transformer) infixExpr(node ast.AnalyzedInfixExpression, needsToBeSt
 		// Swap the operands
 		if node.Lhs.Type().Kind() == ast.IntTypeKind || node.Lhs.Type().Kind() == ast.FloatTypeKind {
 			variants = append(variants, ast.AnalyzedInfixExpression{
-				Lhs:        node.Rhs,
-				Rhs:        node.Lhs,
+				Lhs:        grouped(node.Rhs),
+				Rhs:        grouped(node.Lhs),
 				Operator:   node.Operator,
 				ResultType: node.ResultType,
 				Range:      node.Range,
